@@ -32,6 +32,7 @@ type drvScenario struct {
 	// prepared statements only: after the first result set was closed run this command (another connection changing the
 	// file), then execute the SAME statement again and record its columns and rows
 	Between []string `json:"between,omitempty"`
+	DelayUs int      `json:"delay_us,omitempty"` // every page read of the statement's handle takes this long
 }
 
 type drvResult struct {
@@ -59,6 +60,7 @@ var (
 	drvPagers []*tracePager
 	drvFail   int
 	drvMode   string
+	drvDelay  time.Duration
 )
 
 func installDriverHook() {
@@ -77,6 +79,9 @@ func installDriverHook() {
 		if drvFail > 0 {
 			tp.failAt = tp.reads + drvFail
 			tp.failMode = drvMode
+		}
+		if drvDelay > 0 {
+			tp.delay = drvDelay
 		}
 		drvPagers = append(drvPagers, tp)
 		drvMu.Unlock()
@@ -139,6 +144,7 @@ func runDriverScenario(s drvScenario) (res drvResult) {
 	drvPagers = nil
 	drvFail = s.FailAt
 	drvMode = s.FailMode
+	drvDelay = time.Duration(s.DelayUs) * time.Microsecond
 	drvMu.Unlock()
 	db, err := sql.Open("sqlittle", s.DB)
 	if err != nil {
